@@ -3,6 +3,7 @@
 package cl
 
 import (
+	"math"
 	"math/big"
 
 	"github.com/ohler55/slip"
@@ -46,7 +47,12 @@ func (f *Abs) Call(s *slip.Scope, args slip.List, depth int) (result slip.Object
 	result = args[0]
 	switch ta := result.(type) {
 	case slip.Fixnum:
-		if ta < 0 {
+		switch {
+		case ta == math.MinInt64:
+			// The absolute value is not a fixnum.
+			var z big.Int
+			result = (*slip.Bignum)(z.Neg(big.NewInt(int64(ta))))
+		case ta < 0:
 			result = -ta
 		}
 	case slip.SingleFloat:
